@@ -1668,6 +1668,7 @@ func (vm *Thread) stackAddRaw(ptr uintptr, n uintptr) uintptr {
 	return ptr + n*value.ValueSize
 }
 
+// Number of stack slots between `to` and `from` (`from - to`)
 func (vm *Thread) stackOffsetFromTo(from *value.Value, to *value.Value) int {
 	return int(uintptr(unsafe.Pointer(from))-uintptr(unsafe.Pointer(to))) / int(value.ValueSize)
 }
@@ -2286,18 +2287,15 @@ func (vm *Thread) growValueStack() {
 	fpOffset := uintptr(vm.fpOffset())
 	spOffset := uintptr(vm.spOffset())
 
-	for i := range vm.callFrames {
+	// rebase the frame pointers saved in the live call frames,
+	// native frames keep symbols in `fp` and `ip`
+	for i := range vm.cfpOffset() {
 		cf := &vm.callFrames[i]
-		offset := uintptr(vm.stackOffsetFromToRaw(oldStackPtr, cf.fp))
-		cf.fp = vm.stackAddRaw(newStackPtr, offset)
-		for _, upvalue := range cf.upvalues {
-			if upvalue.IsClosed() {
-				continue
-			}
-
-			offset := vm.stackOffsetFromTo(&vm.stack[0], upvalue.slot)
-			upvalue.slot = vm.stackAdd(&newStack[0], offset)
+		if cf.isNative {
+			continue
 		}
+		offset := uintptr(vm.stackOffsetFromToRaw(cf.fp, oldStackPtr))
+		cf.fp = vm.stackAddRaw(newStackPtr, offset)
 	}
 
 	for _, upvalue := range vm.upvalues {
@@ -2305,7 +2303,20 @@ func (vm *Thread) growValueStack() {
 			continue
 		}
 
-		offset := vm.stackOffsetFromTo(&vm.stack[0], upvalue.slot)
+		offset := vm.stackOffsetFromTo(upvalue.slot, &vm.stack[0])
+		upvalue.slot = vm.stackAdd(&newStack[0], offset)
+	}
+
+	// rebase the remaining open upvalues of this thread (captured by closures
+	// and boxes that are not running right now), they still point to the old stack
+	oldStackEnd := vm.stackAddRaw(oldStackPtr, uintptr(len(vm.stack)))
+	for upvalue := vm.openUpvalueHead; upvalue != nil; upvalue = upvalue.next {
+		slot := uintptr(unsafe.Pointer(upvalue.slot))
+		if slot < oldStackPtr || slot >= oldStackEnd {
+			continue
+		}
+
+		offset := vm.stackOffsetFromTo(upvalue.slot, &vm.stack[0])
 		upvalue.slot = vm.stackAdd(&newStack[0], offset)
 	}
 
